@@ -17,9 +17,11 @@ package blobstore
 //@   modifies baCalls(self), baDigest(self), baGets(self)
 //@   ensures baCalls(self) == old(baCalls(self)) + 1 && result != nil && baDigest(self) == digest.value
 //@   ensures baGets(self) == old(baGets(self)) + 1
+//@ ghost baChild(ref) str
 //@ iface BlobAccess.GetFromComposite
-//@   modifies baCalls(self)
+//@   modifies baCalls(self), baDigest(self), baChild(self)
 //@   ensures baCalls(self) == old(baCalls(self)) + 1 && result != nil
+//@   ensures baDigest(self) == parentDigest.value && baChild(self) == childDigest.value
 //@ ghost baPutErr(ref) int
 //@ ghost baDigest(ref) str
 //@ iface BlobAccess.Put
